@@ -132,6 +132,8 @@ theorem C13_join_error_effect (s s' : St) (h j c : Nat) (hs : step s (.jnErr h j
 def External (s : St) : Ev → Prop
   | .term _ | .start _ _ _ | .body _ | .bodyDone _ | .jnLock _ _ | .joinable _ _ _ | .detach _ _ _
   | .uadd _ _ _ | .ipEnable _ _ _ | .ipRefuse _ | .ipReq _ _ | .jtDtor _ _ | .jtStop _ _ _ | .jtJoined _ _ => True
+  -- (C13m) handle operations are the program's choice, too
+  | .mvCtor _ _ _ | .mvAssign _ _ _ | .mvTerm _ _ | .swap _ _ _ | .dtorOk _ _ | .dtorTerm _ _ | .jtSkip _ _ => True
   | .ipHit o _ | .ipMiss o => s.jpc o = .out
   | _ => False
 
